@@ -417,6 +417,25 @@ pub fn register(l: &mut Vec<Obl>) {
                 r
             });
     }
+    // XYZ -> Oklab, the cube-root direction, on rays from black through 8 colours (configurations) with the scale symbolic
+    for (k, dir) in [[0.4124, 0.2126, 0.0193], [0.3576, 0.7152, 0.1192], [0.1805, 0.0722, 0.9505], [0.7700, 0.9278, 0.1385],
+                     [0.5929, 0.2848, 0.9698], [0.5381, 0.7874, 1.0697], [0.9505, 1.0, 1.089], [0.6, 0.5, 0.2]].iter().enumerate() {
+        let dir = *dir;
+        obl!(l; format!("c02_xyz_to_oklab_ray{}", k), "C02", Tier::Quick,
+            format!("XYZ (D65) -> Oklab equals Ottosson's definition (M1, cube root, M2 with the published matrices) within 2e-3 for every colour t x ({}, {}, {}), t in [0.02, 1] (palette derives its own M1 from its D65 white point: up to 1e-4 per entry)", dir[0], dir[1], dir[2]),
+            ["<Oklab<T> as FromColorUnclamped<Xyz<D65,T>>>::from_color_unclamped", "oklab::m1", "oklab::m2"],
+            [var("t", 0.02, 1.0)];
+            |v| {
+                let mut r = Res::<B>::new();
+                let xyz = [v[0] * T::k(dir[0]), v[0] * T::k(dir[1]), v[0] * T::k(dir[2])];
+                let c: Oklab<T> = Oklab::from_color_unclamped(Xyz::<wp::D65, T>::new(xyz[0], xyz[1], xyz[2]));
+                let e = okref::xyz_to_oklab(xyz);
+                r.goal("l", c.l.close(e[0], 2e-3));
+                r.goal("a", c.a.close(e[1], 2e-3));
+                r.goal("b", c.b.close(e[2], 2e-3));
+                r
+            });
+    }
     obl!(l; "c02_linsrgb_oklab", "C02", Tier::Quick,
         "linear sRGB <-> Oklab (direct matrices) equal Ottosson's reference code within 1e-6 for RGB in [0,1]^3 resp. Oklab L in [0,1], a, b in [-0.4,0.4]",
         ["<Oklab<T> as FromColorUnclamped<Rgb<S,T>>>::from_color_unclamped", "oklab::linear_srgb_to_oklab", "<Rgb<S,T> as FromColorUnclamped<Oklab<T>>>::from_color_unclamped", "oklab::oklab_to_linear_srgb"],
